@@ -69,6 +69,14 @@ SPECIAL_POOLS = [
         {"api": "parse", "sql": "SELECT * FROM t |> WHERE a = 1 |> SELECT b", "read": "bigquery"},
         {"api": "tokenize", "sql": "SELECT 'a''b', $$x$$, 1.5e3 /* c */ -- d\nFROM t", "read": "postgres"},
     ],
+    # duplicated / absorbed / complementary operands in every order: the canonical order must not come from a hash
+    [
+        {"api": "simplify", "sql": "SELECT 1 WHERE a AND a AND b AND c AND c AND d AND d", "read": ""},
+        {"api": "simplify", "sql": "SELECT 1 WHERE x = 1 OR x = 1 OR y = 2 OR y = 2 OR z = 3 OR z = 3 OR w = 4", "read": ""},
+        {"api": "simplify", "sql": "SELECT 1 WHERE (p AND (p OR q)) OR (r AND NOT r) OR (s OR (s AND u)) OR (v AND w) OR (v AND NOT w)", "read": "", "dnf": True},
+        {"api": "optimize", "sql": "SELECT a FROM t WHERE (a = 1 AND b = 2) OR (b = 2 AND a = 1) OR (a = 1 AND b = 2 AND c = 'x')", "read": ""},
+        {"api": "simplify", "sql": "SELECT 1 WHERE \"A\" AND \"A\" AND \"a\" AND \"a\" AND b AND b", "read": ""},
+    ],
     # dialect classes produced by a factory: same qualified name, different tables and methods
     [
         {"api": "custom", "base": "", "variant": 0, "sql": "SELECT CURRENT_TIMESTAMP, CURRENT_DATE, TRIM(a)"},
